@@ -12,7 +12,7 @@ META = {
                    'first op starts at its first control point; R01.4 subpaths are implicitly closed (MoveTo closes first, close() after the '
                    'loop), close() adds current->first and returns the cursor to the start, curve flags are right; R20.4 arcs are forwarded as '
                    'quadratics.',
-    'decides': ['R08.1 every control point transformed', 'R08.2 monotonic chopping delivers both halves', 'R08.3 cubic/quad plumbing and cursor law', 'R01.4 implicit close and curve flags', 'R20.4 arc plumbing'],
+    'decides': ['R08.1 every control point transformed', 'R08.2 monotonic chopping delivers both halves', 'R08.3 cubic/quad plumbing and cursor law', 'R01.4 implicit close and curve flags', 'R08.5 x/y halves of the curve set-up are twins', 'R20.4 arc plumbing'],
     'does_not_decide': ['accuracy: subdivision count, forward differencing, the 0.01 cubic tolerance, the one-pixel margin (numeric)', 'fixed-point curve set-up in Rasterizer::add_edge'],
     'assumptions': ['lyon_geom CubicBezierSegment::for_each_quadratic_bezier approximates the cubic within its tolerance (external)'],
     'trusted_base': ['lyon_geom 1.0.19', 'euclid 0.22.14'],
@@ -20,4 +20,4 @@ META = {
 
 
 def run(ctx):
-    engine.run_rules(ctx, [ras.r08_1, ras.r08_2, ras.r08_34, ras.r01_4_close, c20.r20_4])
+    engine.run_rules(ctx, [ras.r08_1, ras.r08_2, ras.r08_34, ras.r01_4_close, ras.r08_5, c20.r20_4])
